@@ -263,4 +263,7 @@ SUBS = [
         cost={"float": 300, "int": 40, "datetime": 40}),
     Sub("gb", check, strategy=lambda tier, v: case_strategy(v), variants=tuple(VARIANTS), examples=(4500, 90000),
         replicas=(3, 8), cost={v: 250 for v in VARIANTS}),
+    # dedicated worker with bounds-checked kernels (sanitizer analogue)
+    Sub("gb_boundscheck", check, strategy=lambda tier, v: case_strategy(v), variants=tuple(VARIANTS)[:2], examples=(500, 8000),
+        replicas=(1, 1), cost={v: 150 for v in VARIANTS}, env={"NUMBA_BOUNDSCHECK": "1", "NUMBA_CACHE_DIR_SUFFIX": "bc"}),
 ]
